@@ -27,6 +27,29 @@ def _validate_rpc(trace):
     return m.group(1), int(m.group(2)), max(int(m.group(5)), int(m.group(6)))
 
 
+def _node_rates(d, seed, k):
+    """Part (c): a real running node with a different rate per RPC kind, hammered kind by kind; TraceNodeRate.tla. Returns (verdict, answered, trace)."""
+    import json
+    trace = os.path.join(d, f"node_rates_{seed}_{k}.ndjson")
+    rep = os.path.join(d, f"node_rates_{seed}_{k}.json")
+    for f_ in (trace, rep):
+        if os.path.exists(f_):
+            os.remove(f_)
+    rc, so, se = common.run_bin("node_rates", [trace, rep, seed * 10 + k], timeout=600)
+    if rc != 0 and not os.path.exists(rep):
+        raise common.ToolError("node_rates failed: " + se[-800:])
+    r = common.load_report(rep)
+    if any(f["key"] == "node_not_up" for f in r["failures"]):
+        raise common.ToolError("node_rates: the node under test never came up")
+    common.handle_failures(PROP, r["failures"], "node_rate_driver_failure")
+    t = common.tlc("concurrency", "TraceNodeRate", cfg="TraceNodeRate.cfg", workers=1, timeout=300, env_extra={"TRACE": trace}, xss="1g", xmx="2g")
+    m = re.search(r'<<\s*"VERDICT",\s*"([^"]*)",\s*"(.*)"\s*>>', t.out)
+    if not m:
+        raise common.ToolError("TraceNodeRate produced no verdict:\n" + t.out[-1500:])
+    answered = json.loads(m.group(2).replace('\\"', '"'))
+    return m.group(1), answered, trace
+
+
 def run(tier, seed):
     t0 = time.time()
     common.cargo_build()
@@ -38,6 +61,7 @@ def run(tier, seed):
     nseeds = 6 if tier == "quick" else 60
     traces, grants, comparable, samples, viol = 0, 0, 0, [], 0
     rpc_traces, rpc_starts, rpc_saturated, rpc_samples = 0, 0, 0, []
+    node_rate_runs = []
     try:
         for (ncalls, burst) in plan:
             for k in range(nseeds):
@@ -89,6 +113,16 @@ def run(tier, seed):
                         path = common.write_replay(PROP, "rpc_trace_violation", {"property": PROP, "kind": "rpc", "seed": s, "burst": burst, "refresh": refresh,
                                                                                  "mode": mode, "steps": steps, "what": verdict, "trace": trace})
                         raise common.Violation(PROP, verdict, path)
+        # ---- part (c): node level - every RPC kind a gossip node serves is limited by the rate configured FOR THAT KIND
+        for k in range(1 if tier == "quick" else 5):
+            verdict, answered, ntrace = _node_rates(d, seed, k)
+            node_rate_runs.append(answered)
+            if sum(answered.values()) == 0:
+                raise common.ToolError("node_rates: the node answered no call at all (harness problem)")
+            if verdict != "ok":
+                viol = 1
+                path = common.write_replay(PROP, "node_rate_violation", {"property": PROP, "kind": "node_rates", "seed": seed, "k": k, "what": verdict, "trace": ntrace, "answered": answered})
+                raise common.Violation(PROP, verdict, path)
     finally:
         cov = {"states": m.distinct, "transitions": m.generated, "traces_validated_against_impl": traces, "samples": samples or [{}],
                "evaluations": grants, "distinct_nontrivial": traces,
@@ -96,6 +130,9 @@ def run(tier, seed):
                        "executed twice (with/without cancelled calls); evaluations = grants checked; CancelNeutral is evaluated on the "
                        f"{comparable} scripts in which every cancellable call was really cancelled",
                "exhaustive": True, "scripts_with_cancel_comparison": comparable,
+               "node_level": {"runs": len(node_rate_runs), "calls_answered_per_kind_within_2500ms_of_16_issued": node_rate_runs[:2],
+                              "rule": "part (c): a real running node with push_block_store_state / get_block / push_validator_addrs limited to bursts 2 / 9 / 5 (refresh 20 s); "
+                                      "per kind a fresh peer without client-side rate issues 16 calls at once; TraceNodeRate.tla: answers in any window <= b + T/r + 1 + INFLIGHT of THAT kind"},
                "rpc": {"connections": rpc_traces, "handler_starts_checked": rpc_starts, "runs_where_the_rate_limit_was_saturated": rpc_saturated,
                        "samples": rpc_samples,
                        "rule": "part (b): the real rpc::Service (ping INFLIGHT 1, consensus INFLIGHT 3, one Rate) over the scripted transport on a ManualClock; remote = "
@@ -119,6 +156,12 @@ def replay(path, seed):
     d = common.outdir(PROP)
     trace = os.path.join(d, "replay.ndjson")
     rep = os.path.join(d, "replay.json")
+    if c.get("kind") == "node_rates":
+        verdict, answered, _ = _node_rates(d, c["seed"], c.get("k", 0))
+        if verdict != "ok":
+            raise common.Violation(PROP, verdict, path)
+        log("replay: no violation")
+        return 0
     if c.get("kind") == "rpc":
         common.run_bin("rpc_drv", [trace, rep, c["seed"], c["burst"], c["refresh"], c["mode"], c["steps"]])
         verdict, n, tight = _validate_rpc(trace)
